@@ -7,7 +7,7 @@ from .c04 import judge, spec_tensor, rand_hermitian_iop
 
 IMPORTS = ('From OFV Require Import Base.Cplx Base.Lin Sem.PauliSem Sem.FermiSem Sem.BoseSem Model.SymbolicOp Model.QubitOp Model.LadderOp '
            'Model.NormalOrder Model.Conjugate Model.Program Check.DictEquiv Check.OpEquiv Thm.C07.Adjoint.\n')
-NEEDS = ['Thm/C03/CAR', 'Thm/C03/NormalOrderB', 'Thm/C03/NormalOrderF', 'Thm/C03/NormalOrderFix', 'Check/OpEquiv']
+NEEDS = ['Thm/C03/CAR', 'Thm/C03/NormalOrderB', 'Thm/C03/NormalOrderF', 'Thm/C03/NormalOrderFix', 'Thm/C03/NormalOrderSorted', 'Check/OpEquiv']
 
 def coq_lop(terms, quad=False):
     if quad: return clist([cpair(coq_quadterm(t), cC(c)) for t, c in terms.items()])
